@@ -42,6 +42,8 @@ class ScriptedIn:
         self.fail_at = set(fail_at)
         self.encoding = encoding
         self.hook = hook
+        self.fail_pattern = None
+        self.streak = 0
 
     def fileno(self):
         return self.fd
@@ -50,7 +52,7 @@ class ScriptedIn:
         self.attempt += 1
         if self.hook is not None:
             self.hook(self.attempt)
-        if self.attempt in self.fail_at:
+        if self.attempt in self.fail_at or (self.fail_pattern is not None and self.fail_pattern(self.attempt, self.pos)):
             raise OSError(5, "injected read error")
         if self.pos >= len(self.text):
             raise RuntimeError("read past the scripted input (the report was not recognised)")
@@ -89,12 +91,40 @@ def ambiguous(pre, report):
     return REPORT_RE.search(pre + report[:-1]) is not None
 
 
-def check_query(acc, pre, report, row, col, trailing, with_cb, fail_at, case):
+def pattern_fn(name):
+    """Long failure patterns: 'any number of times before succeeding'."""
+    if name is None:
+        return None
+    kind, k = name
+    state = {"pos": -1, "n": 0}
+
+    def fn(attempt, pos):
+        if kind == "before_each":  # k failures before every successful read
+            if state["pos"] != pos:
+                state["pos"], state["n"] = pos, 0
+            if state["n"] < k:
+                state["n"] += 1
+                return True
+            return False
+        if kind == "first":  # k failures before the first successful read
+            return attempt <= k
+        if kind == "middle":  # k failures after the third successful read
+            if pos == 3 and state["n"] < k:
+                state["n"] += 1
+                return True
+            return False
+        return False
+
+    return fn
+
+
+def check_query(acc, pre, report, row, col, trailing, with_cb, fail_at, case, pattern=None):
     from curtsies.window import CursorAwareWindow
 
     px = proxy()
     got_extra = []
     inp = ScriptedIn(px.slave, pre + report + trailing, fail_at)
+    inp.fail_pattern = pattern_fn(pattern)
     cb = (lambda b: got_extra.append(b)) if with_cb else None
     win = CursorAwareWindow(out_stream=px, in_stream=inp, extra_bytes_callback=cb)
     try:
@@ -149,6 +179,13 @@ def shard_a(args):
                             acc.case(bool(pre), key=(pre, report, trailing, with_cb), sample=case)
                             acc.transitions += 1
                             check_query(acc, pre, report, row, col, trailing, with_cb, (), case)
+                    # long failure patterns ("any number of times")
+                    if (row, col) == (2, 10) or (thorough and row == col):
+                        for pat in (("before_each", 1), ("before_each", 5), ("first", 150), ("middle", 150), ("before_each", 40)):
+                            case = {"preceding": pre, "report": report, "trailing": "x", "callback": True, "failing_reads": list(pat)}
+                            acc.case(True, key=(pre, report, pat), sample=case)
+                            acc.transitions += 1
+                            check_query(acc, pre, report, row, col, "x", True, (), case, pattern=pat)
                     # failing reads: every placement of <= 2 failures among the attempts (deviation bound 2), one report shape per preceding
                     if (row, col) in ((1, 1), (10, 100)) or thorough:
                         nreads = len(pre) + len(report)
